@@ -211,8 +211,9 @@ class Ctx:
             derandomize=False,
             report_multiple_bugs=False,
             phases=phases,
-            suppress_health_check=[HealthCheck.too_slow, HealthCheck.data_too_large,
-                                   HealthCheck.large_base_example],
+            # a health check is advice about the generator, never a verdict about the code under test (thorough C15 with six
+            # definitions per case overran Hypothesis' entropy buffer often enough to trip filter_too_much: exit 2)
+            suppress_health_check=list(HealthCheck),
             print_blob=False,
         )
         ctx = self
